@@ -1,4 +1,7 @@
-"""Regenerate coq/gen/*.v from /repo/src (written only when the content changed)."""
+"""Regenerate coq/gen/*.v from /repo/src (written only when the content changed).
+
+Every generator is fail-closed on its own: if it cannot read the source, its file is rewritten WITHOUT the
+definitions, so that exactly the theorems stated over that file stop compiling (a stale file is never kept)."""
 import json
 import os
 import sys
@@ -7,22 +10,39 @@ HERE = os.path.dirname(os.path.dirname(os.path.dirname(os.path.abspath(__file__)
 sys.path.insert(0, HERE)
 
 
+def _failed(name, ex):
+    return "(* %s.v: NOT GENERATED from /repo/src: %s *)\n" % (name, repr(ex).replace("*)", "* )"))
+
+
 def regenerate():
     from harness.lib import coqrun
-    from harness.translate import exnflow
-    text, info = exnflow.generate()
+    out = {}
+    try:
+        from harness.translate import exnflow
+        text, info = exnflow.generate()
+        out["Skeleton"] = info
+    except BaseException as ex:
+        text, info = _failed("Skeleton", ex), dict(error=repr(ex))
+        out["Skeleton"] = info
     coqrun.write_gen("Skeleton", text)
     os.makedirs(os.path.join(HERE, "build"), exist_ok=True)
     with open(os.path.join(HERE, "build", "skeleton_info.json"), "w") as f:
         json.dump(info, f, indent=1)
-    out = dict(Skeleton=info)
     try:
         from harness.translate import wiremap
         wtext, winfo = wiremap.generate()
-        coqrun.write_gen("WireMap", wtext)
-        out["WireMap"] = winfo
-    except ImportError:
-        pass
+    except BaseException as ex:
+        wtext, winfo = _failed("WireMap", ex), dict(error=repr(ex))
+    coqrun.write_gen("WireMap", wtext)
+    out["WireMap"] = winfo
+    from harness.translate import pure
+    try:
+        groups = pure.generate()
+    except BaseException as ex:
+        groups = {g: (_failed("P" + g, ex), dict(error=repr(ex))) for g in pure.GROUPS}
+    for g, (ptext, pinfo) in groups.items():
+        coqrun.write_gen("P" + g, ptext)
+        out["P" + g] = dict(functions=pinfo, stated_over_by=pure.GROUPS[g][1])
     return out
 
 
